@@ -47,6 +47,8 @@ pub struct GenOpts {
     /// after the prefix reduces the empty production with a real lookahead
     /// while its successor states consume the prefix only optionally)
     pub shared_prefix: u32,
+    /// C19: sometimes add a generic grammar parameter with a where clause
+    pub generics: bool,
 }
 
 impl GenOpts {
@@ -79,6 +81,7 @@ impl GenOpts {
             helpers: 0,
             macro_focus: false,
             shared_prefix: 0,
+            generics: false,
         }
     }
     pub fn plain() -> GenOpts {
@@ -110,6 +113,7 @@ impl GenOpts {
             helpers: 0,
             macro_focus: false,
             shared_prefix: 0,
+            generics: false,
         }
     }
 }
@@ -657,7 +661,7 @@ pub fn gen_full(t: &mut Tape, o: &GenOpts) -> GSpec {
         };
         modes.push(m);
     }
-    let spec = GSpec { lexer, terms, nts: vec![], declare_error: true, cx_name: "cx".into(), lt_name: "cx".into() };
+    let spec = GSpec { lexer, terms, nts: vec![], declare_error: true, cx_name: "cx".into(), lt_name: "cx".into(), extra: None };
     let mut g = G { t, o, spec, modes, n_nts, macros: vec![], var: 0 };
     // placeholders for the ordinary nonterminals so indices are stable
     for i in 0..n_nts {
@@ -833,6 +837,13 @@ pub fn gen_full(t: &mut Tape, o: &GenOpts) -> GSpec {
             alt.syms.insert(pos, SymSpec::plain(SymKind::N(hi)));
         }
     }
+    if g.o.generics && g.t.chance(170) {
+        g.spec.extra = Some(match (&g.spec.lexer, g.t.below(3)) {
+            (_, 0) => ExtraParam::Simple,
+            (Lexer::Builtin, _) => ExtraParam::OutlivesInput,
+            (Lexer::Extern { .. }, _) => ExtraParam::OutlivesUsedLifetime,
+        });
+    }
     // pub / inline flags
     let reach = reach_matrix(&g.spec);
     for ni in 1..n_nts {
@@ -1007,7 +1018,7 @@ pub fn gen_cfg(t: &mut Tape) -> (GSpec, Vec<&'static str>) {
     let mut tags = vec![];
     let nterms = 2 + t.below(5);
     let terms: Vec<TermSpec> = (0..nterms as u32).map(|k| extern_term(k, false)).collect();
-    let mut spec = GSpec { lexer: Lexer::Extern { loc: LocTy::Usize }, terms, nts: vec![], declare_error: true, cx_name: "cx".into(), lt_name: "cx".into() };
+    let mut spec = GSpec { lexer: Lexer::Extern { loc: LocTy::Usize }, terms, nts: vec![], declare_error: true, cx_name: "cx".into(), lt_name: "cx".into(), extra: None };
     let n_nts = 1 + t.below(6);
     let unit_nt = |name: String, public: bool| NtSpec {
         name,
@@ -1228,7 +1239,7 @@ pub fn gen_cfg(t: &mut Tape) -> (GSpec, Vec<&'static str>) {
 /// (parenthesised atom) and an optional wrapper start symbol.
 pub fn gen_prec(t: &mut Tape) -> GSpec {
     let terms: Vec<TermSpec> = (0..8u32).map(|k| extern_term(k, false)).collect();
-    let mut spec = GSpec { lexer: Lexer::Extern { loc: LocTy::Usize }, terms, nts: vec![], declare_error: true, cx_name: "cx".into(), lt_name: "cx".into() };
+    let mut spec = GSpec { lexer: Lexer::Extern { loc: LocTy::Usize }, terms, nts: vec![], declare_error: true, cx_name: "cx".into(), lt_name: "cx".into(), extra: None };
     // N0 = wrapper (pub), N1 = E (annotated), N2 = T (atom with parens)
     let wrapper = t.chance(90);
     let e_idx = 1usize;
@@ -1607,7 +1618,7 @@ pub fn cfg_variant(spec: &GSpec, t: &mut Tape) -> (GSpec, std::collections::BTre
 /// all of its symbols (`<>`), error alternatives are `@L ! @R`.
 pub fn gen_recovery(t: &mut Tape) -> GSpec {
     let terms: Vec<TermSpec> = (0..6u32).map(|k| extern_term(k, false)).collect();
-    let mut spec = GSpec { lexer: Lexer::Extern { loc: LocTy::Usize }, terms, nts: vec![], declare_error: true, cx_name: "cx".into(), lt_name: "cx".into() };
+    let mut spec = GSpec { lexer: Lexer::Extern { loc: LocTy::Usize }, terms, nts: vec![], declare_error: true, cx_name: "cx".into(), lt_name: "cx".into(), extra: None };
     // a random assignment of roles to the six unit tokens
     let mut roles: Vec<usize> = (0..6).collect();
     for i in (1..6).rev() {
@@ -1671,7 +1682,7 @@ pub fn gen_recovery(t: &mut Tape) -> GSpec {
 pub fn gen_inline_focus(t: &mut Tape) -> GSpec {
     let terms: Vec<TermSpec> = (0..8u32).map(|k| extern_term(k, false)).collect();
     let nterms = terms.len();
-    let mut spec = GSpec { lexer: Lexer::Extern { loc: LocTy::Usize }, terms, nts: vec![], declare_error: true, cx_name: "cx".into(), lt_name: "cx".into() };
+    let mut spec = GSpec { lexer: Lexer::Extern { loc: LocTy::Usize }, terms, nts: vec![], declare_error: true, cx_name: "cx".into(), lt_name: "cx".into(), extra: None };
     let n_helpers = 2 + t.below(3);
     // index 0 = N0, helpers at 1..=n_helpers
     spec.nts.push(NtSpec { name: "N0".into(), public: true, inline: false, ty: Some(Ty::Str), alts: vec![], cfg: vec![], params: vec![] });
